@@ -1,12 +1,14 @@
 package c10
 
 import (
+	"encoding/hex"
 	"encoding/json"
 	"fmt"
 	"sort"
 	"strings"
 	"sync"
 	"time"
+	"unicode/utf8"
 
 	"verif/core"
 )
@@ -17,6 +19,7 @@ type Part struct {
 	S     string  `json:"s,omitempty"`     // text / tag text
 	E     core.E  `json:"e,omitempty"`     // print expression / plural subject
 	Dirs  []Dir   `json:"dirs,omitempty"`  // print directives
+	Bytes []int   `json:"bytes,omitempty"` // k = btext: the text as bytes (need not be UTF-8)
 	B     string  `json:"b,omitempty"`     // base name derived by the spec
 	Cases []PCase `json:"cases,omitempty"` // plural cases
 	Dflt  []Part  `json:"dflt,omitempty"`  // plural default body
@@ -38,13 +41,14 @@ type PCase struct {
 type MsgCase struct {
 	ID    string   `json:"id"`
 	Parts []Part   `json:"parts"`
-	Names []string `json:"names"` // placeholder names in visiting order
-	PhStr string   `json:"phstr"` // placeholder string
-	Key   string   `json:"key"`   // what the id is computed from
-	Coll  bool     `json:"coll"`  // a suffixed candidate name is another group's base name
-	Multi bool     `json:"multi"` // some base name has several distinct sources
-	Rep   bool     `json:"rep"`   // some placeholder occurs twice
-	Feat  string   `json:"feat"`  // structural feature (signs findings)
+	Names []string `json:"names"`          // placeholder names in visiting order
+	PhStr string   `json:"phstr"`          // placeholder string
+	Key   string   `json:"key"`            // what the id is computed from
+	Coll  bool     `json:"coll"`           // a suffixed candidate name is another group's base name
+	Multi bool     `json:"multi"`          // some base name has several distinct sources
+	Rep   bool     `json:"rep"`            // some placeholder occurs twice
+	Feat  string   `json:"feat"`           // structural feature (signs findings)
+	KeyB  []int    `json:"keyb,omitempty"` // text-bytes family: placeholder string = id key = these bytes
 	// Terms: the spec's abstract id (terms over fp / mix) per meaning
 	Terms []IdTerm `json:"idterms,omitempty"`
 }
@@ -60,6 +64,8 @@ func (c *MsgCase) Family() string {
 		return "M2-extra"
 	case strings.HasPrefix(c.ID, "N"):
 		return "M2-nested-plural"
+	case strings.HasPrefix(c.ID, "Y"):
+		return "M2-text-bytes"
 	case strings.HasPrefix(c.ID, "S"):
 		return "M2-text-meaning-split"
 	}
@@ -68,6 +74,24 @@ func (c *MsgCase) Family() string {
 
 // NodeCount is the number of named nodes.
 func (c *MsgCase) NodeCount() int { return len(c.Names) }
+
+// BytesString turns the spec's byte sequence into a Go string.
+func BytesString(bs []int) string {
+	b := make([]byte, len(bs))
+	for i, v := range bs {
+		b[i] = byte(v)
+	}
+	return string(b)
+}
+
+// SafeStr makes a string that need not be valid UTF-8 survive JSON (the
+// observations of child processes travel as JSON): hex if it is not valid.
+func SafeStr(s string) string {
+	if utf8.ValidString(s) {
+		return s
+	}
+	return "hex:" + hex.EncodeToString([]byte(s))
+}
 
 // UnparseExpr spells an expression tree as Soy source (minimal parentheses).
 func UnparseExpr(e core.E) string { return core.Unparse(e, core.Style{}) }
@@ -79,6 +103,8 @@ func UnparseBody(parts []Part) string {
 		switch p.K {
 		case "text":
 			b.WriteString(escapeText(p.S))
+		case "btext":
+			b.WriteString(escapeText(BytesString(p.Bytes)))
 		case "tag":
 			b.WriteString(p.S)
 		case "print":
@@ -237,6 +263,10 @@ func DecodeCases(printed []string) ([]*MsgCase, error) {
 		c := &MsgCase{}
 		if err := d.Decode(c); err != nil {
 			return nil, fmt.Errorf("bad case JSON from TLC: %v: %.200s", err, p)
+		}
+		if c.KeyB != nil {
+			c.PhStr = SafeStr(BytesString(c.KeyB))
+			c.Key = c.PhStr
 		}
 		cs = append(cs, c)
 	}
